@@ -784,6 +784,68 @@ def p_geobox(opname, ta, tb, shift=(2, -1), shape_b=(3, 3)):
     return True, ""
 
 
+def p_geobox_list(opname, tl, rois, shifts):
+    """GeoBox operations on a list of operands that may be EMPTY (zero rows / zero columns): operand i is
+    `mk_gbox((8, 8), shifts[i], tag tl[i])[r0:r1, c0:c1]` with rois[i] = [r0, r1, c0, c1].  Some operand's CRS differs
+    from the first one's -> ValueError, whatever is empty; otherwise the result is tagged like the first operand."""
+    from odc.geo.geobox import (bounding_box_in_pixel_domain, geobox_intersection_conservative,
+                                geobox_union_conservative, pixel_translation)
+    T = tags()
+    gs = []
+    for t, roi, k in zip(tl, rois, shifts):
+        r0, r1, c0, c1 = roi
+        gs.append(mk_gbox((8, 8), tuple(k), crs_obj(T, t))[r0:r1, c0:c1])
+    A, B = gs[0], gs[1]
+    ops = {"union": lambda: geobox_union_conservative(list(gs)), "intersection": lambda: geobox_intersection_conservative(list(gs)),
+           "or": lambda: A | B, "and": lambda: A & B, "ror": lambda: B | A, "rand": lambda: B & A,
+           "overlap_roi": lambda: A.overlap_roi(B), "snap_to": lambda: A.snap_to(B),
+           "pixel_translation": lambda: pixel_translation(A, B), "bounding_box_in_pixel_domain": lambda: bounding_box_in_pixel_domain(A, B),
+           "or-chain": lambda: (A | B) | gs[-1], "and-chain": lambda: (A & B) & gs[-1], "or-of-and": lambda: (A & B) | gs[-1]}
+    used = tl if opname in ("union", "intersection", "or-chain", "and-chain", "or-of-and") else tl[:2]
+    differ = any(tag_differs(T, a, b) for a in used for b in used)
+    first = B if opname in ("ror", "rand") else A
+    shapes_txt = [tuple(g.shape) for g in gs]
+    try:
+        got = ops[opname]()
+    except ValueError:
+        return differ, "" if differ else f"ValueError although the CRSs are equal (shapes {shapes_txt})"
+    except Exception as e:
+        return False, f"raised {type(e).__name__}: {e}"
+    if differ:
+        return False, (f"returned {got!r} for GeoBoxes in different CRSs (tags {[TAG_NAMES_(t) for t in tl]}, shapes {shapes_txt}; "
+                       f"an empty operand still carries its CRS)")
+    from odc.geo.geobox import GeoBox
+    if isinstance(got, GeoBox):
+        return got.crs is first.crs, f"result CRS {got.crs!r} is not the first operand's {first.crs!r}"
+    return True, ""
+
+
+def p_bbox_ops(opname, ta, tb, box_a, box_b):
+    """BoundingBox `|` / `&` operators and the function forms on two boxes (also zero width / height and inverted ones):
+    tags differ -> CRSMismatchError; otherwise the min/max box tagged with the first operand's CRS."""
+    from odc.geo.crs import CRSMismatchError
+    from odc.geo.geom import BoundingBox, bbox_intersection, bbox_union
+    T = tags()
+    A, B = BoundingBox(*box_a, crs_obj(T, ta)), BoundingBox(*box_b, crs_obj(T, tb))
+    ops = {"or": lambda: A | B, "and": lambda: A & B, "bbox_union": lambda: bbox_union([A, B]), "bbox_intersection": lambda: bbox_intersection(iter([A, B])),
+           "bbox_union3": lambda: bbox_union([A, A, B]), "bbox_intersection3": lambda: bbox_intersection([A, B, A])}
+    differ = tag_differs(T, ta, tb) or tag_differs(T, tb, ta)
+    try:
+        got = ops[opname]()
+    except CRSMismatchError:
+        return differ, "" if differ else "CRSMismatchError although the CRSs are equal"
+    except Exception as e:
+        return False, f"raised {type(e).__name__}: {e}"
+    if differ:
+        return False, f"returned {got!r} for boxes in different CRSs ({TAG_NAMES_(ta)} vs {TAG_NAMES_(tb)})"
+    a, b = tuple(box_a), tuple(box_b)
+    if opname in ("or", "bbox_union", "bbox_union3"):
+        want = (min(a[0], b[0]), min(a[1], b[1]), max(a[2], b[2]), max(a[3], b[3]))
+    else:
+        want = (max(a[0], b[0]), max(a[1], b[1]), min(a[2], b[2]), min(a[3], b[3]))
+    return tuple(got.bbox) == want and got.crs is A.crs, f"returned {got!r}, want {want} tagged {A.crs!r}"
+
+
 def p_split(ta, tb, ka="polygon", kb="line"):
     from odc.geo.crs import CRSMismatchError
     from odc.geo.geom import Geometry
@@ -860,7 +922,7 @@ def p_call_mixed(qual):
 
 
 PREDICATES = {"pair": p_pair, "nary": p_nary, "geobox": p_geobox, "split": p_split, "call_mixed": p_call_mixed,
-              "history": p_history}
+              "history": p_history, "geobox_list": p_geobox_list, "bbox_ops": p_bbox_ops}
 
 
 def search(out, tier, offenders, disagreeing=()):
@@ -874,7 +936,7 @@ def search(out, tier, offenders, disagreeing=()):
             ok, detail = False, f"raised {type(e).__name__}: {e}"
         out.count("predicate:" + name)
         out.case(("pred", name, json.dumps(list(args), default=str)), True)
-        key = f"c01:{name}:{args[0]}" if name in ("pair", "nary", "geobox", "call_mixed") else f"c01:{name}"
+        key = f"c01:{name}:{args[0]}" if name in ("pair", "nary", "geobox", "call_mixed", "geobox_list", "bbox_ops") else f"c01:{name}"
         if name == "geobox" and len(args) > 3 and list(args[3]) == [0, 0]:
             key += ":same-affine"
         if name == "history":
@@ -909,6 +971,36 @@ def search(out, tier, offenders, disagreeing=()):
             run("geobox", op, ta, tb, [0, 0], [4, 5])
             run("geobox", op, ta, tb, [0, 0], [2, 7])
             run("geobox", op, ta, tb, [rng.randint(-6, 6), rng.randint(-6, 6)], [rng.randint(1, 7), rng.randint(1, 7)])
+    # empty GeoBoxes (zero rows / columns: gbox[0:0, 0:0], gbox[5:5, :], gbox[:, 3:3], a non-overlapping `&`) at every
+    # position of every GeoBox combining operation, all ordered tag pairs: an empty operand still carries its CRS
+    empties = [[0, 0, 0, 0], [5, 5, 0, 8], [0, 8, 3, 3], [2, 2, 1, 4]]
+    fulls = [[0, 8, 0, 8], [1, 4, 2, 7]]
+    for ta, tb in itertools.product(TAG_IDS, TAG_IDS):
+        for op in ("or", "and", "ror", "rand", "union", "intersection", "overlap_roi", "snap_to", "pixel_translation",
+                   "bounding_box_in_pixel_domain"):
+            sh = [[rng.randint(-3, 3), rng.randint(-3, 3)], [rng.randint(-3, 3), rng.randint(-3, 3)]]
+            run("geobox_list", op, [ta, tb], [rng.choice(empties), rng.choice(fulls)], sh)        # empty on the left
+            run("geobox_list", op, [ta, tb], [rng.choice(fulls), rng.choice(empties)], sh)        # empty on the right
+            if rng.random() < 0.3:
+                run("geobox_list", op, [ta, tb], [rng.choice(empties), rng.choice(empties)], sh)
+        # three operands: the empty one (or the result of a non-overlapping &) at every position
+        for op in ("union", "intersection", "or-chain", "and-chain", "or-of-and"):
+            for pos in range(3):
+                tl = [ta, ta, ta]
+                tl[pos] = tb
+                rois = [rng.choice(fulls) for _ in range(3)]
+                rois[rng.choice([pos, pos, rng.randrange(3)])] = rng.choice(empties)
+                sh = [[rng.randint(-3, 3), rng.randint(-3, 3)] for _ in range(3)]
+                if op == "or-of-and":
+                    sh[1] = [sh[0][0] + 20, sh[0][1]]      # A & B share no pixel: an empty intermediate result
+                run("geobox_list", op, tl, rois, sh)
+        # BoundingBox operators and function forms, also degenerate boxes (zero width / height, inverted)
+        boxes = [[0.0, 0.0, 4.0, 4.0], [2.0, 1.0, 6.0, 3.0], [10.0, 10.0, 12.0, 11.0], [1.0, 1.0, 1.0, 5.0], [0.0, 2.0, 7.0, 2.0],
+                 [3.0, 3.0, 3.0, 3.0], [5.0, 5.0, 1.0, 1.0], [0, 0, 3, 2]]
+        for op in ("or", "and", "bbox_union", "bbox_intersection", "bbox_union3", "bbox_intersection3"):
+            run("bbox_ops", op, ta, tb, boxes[0], boxes[1])
+            run("bbox_ops", op, ta, tb, rng.choice(boxes), rng.choice(boxes))
+            run("bbox_ops", op, ta, tb, rng.choice(boxes[3:7]), rng.choice(boxes))
     # CRS equality under histories: every discovered (PROJ string, EPSG spelling) pair x construction
     # route x what happened to either object before the operands are combined
     hp = history_pairs(tier)
